@@ -22,6 +22,60 @@ pub fn host_calm() -> bool {
     t.elapsed() < Duration::from_millis(120)
 }
 
+fn thread_cpu_ns() -> u64 {
+    let mut ts = libc::timespec { tv_sec: 0, tv_nsec: 0 };
+    unsafe {
+        let _ = libc::clock_gettime(libc::CLOCK_THREAD_CPUTIME_ID, &mut ts);
+    }
+    ts.tv_sec as u64 * 1_000_000_000 + ts.tv_nsec as u64
+}
+
+/// Do CPU-bound threads get a core right now?  4 threads each burn 12 ms of *their own* CPU
+/// time; on a host with spare cores that takes 12-15 ms of wall time, on an oversubscribed one
+/// a multiple. `false` if any of them needed more than 3x.
+pub fn cpu_available() -> bool {
+    let hs: Vec<_> = (0..4)
+        .map(|_| {
+            std::thread::spawn(|| {
+                let t = Instant::now();
+                let c0 = thread_cpu_ns();
+                let mut x = 0u64;
+                while thread_cpu_ns() - c0 < 12_000_000 {
+                    for i in 0..2_000u64 {
+                        x = x.wrapping_mul(6364136223846793005).wrapping_add(i);
+                    }
+                    std::hint::black_box(x);
+                }
+                t.elapsed()
+            })
+        })
+        .collect();
+    hs.into_iter().all(|h| h.join().map(|d| d < Duration::from_millis(36)).unwrap_or(false))
+}
+
+/// wake-ups are prompt and CPU-bound threads are not starved
+pub fn host_responsive() -> bool {
+    host_calm() && cpu_available()
+}
+
+/// waits (up to `limit`) until the host is responsive twice in a row
+pub fn wait_until_responsive(limit: Duration) -> bool {
+    let t = Instant::now();
+    let mut good = 0;
+    while t.elapsed() < limit {
+        if host_responsive() {
+            good += 1;
+            if good >= 2 {
+                return true;
+            }
+        } else {
+            good = 0;
+            std::thread::sleep(Duration::from_millis(500));
+        }
+    }
+    false
+}
+
 pub fn now_ns() -> u64 {
     std::time::SystemTime::now()
         .duration_since(std::time::UNIX_EPOCH)
@@ -31,7 +85,8 @@ pub fn now_ns() -> u64 {
 
 /// Confirm-by-repeat (DESIGN.md §2.5): a deviation whose signature is timing-dependent is a
 /// violation only if the same case deviates with the same signature in every one of `n`
-/// immediate re-executions (each in a fresh child, by the caller's `rerun`); otherwise it is
+/// immediate re-executions (each in a fresh child, by the caller's `rerun`) *and* the host is
+/// responsive afterwards (wake-ups prompt, CPU-bound threads not starved); otherwise it is
 /// recorded as transient and the case passes.
 pub fn confirm_repeat(
     mut o: crate::Outcome,
@@ -45,17 +100,30 @@ pub fn confirm_repeat(
     if !is_timing(&sig) {
         return o;
     }
-    for _ in 0..n {
-        let r = rerun();
-        match &r.fail {
-            Some((s2, _)) if *s2 == sig => {}
-            _ => {
-                eprintln!("[timing] transient deviation (did not repeat, not a violation): {sig} :: {msg0}");
-                o.fail = None;
-                o.transient = true;
-                return o;
+    // A deviation that repeats while the host itself is oversubscribed (other checks, builds)
+    // says nothing about the code: wait for a responsive host and confirm again, up to 3 times;
+    // if the host never becomes responsive the case stays undecided (counted as transient).
+    for round in 0..3 {
+        for _ in 0..n {
+            let r = rerun();
+            match &r.fail {
+                Some((s2, _)) if *s2 == sig => {}
+                _ => {
+                    eprintln!("[timing] transient deviation (did not repeat, not a violation): {sig} :: {msg0}");
+                    o.fail = None;
+                    o.transient = true;
+                    return o;
+                }
             }
         }
+        if host_responsive() {
+            return o;
+        }
+        eprintln!("[timing] deviation repeated on an oversubscribed host (round {round}); waiting for the host before confirming again: {sig}");
+        let _ = wait_until_responsive(Duration::from_secs(45));
     }
+    eprintln!("[timing] undecided: the host stayed oversubscribed through 3 confirmation rounds (not a violation): {sig} :: {msg0}");
+    o.fail = None;
+    o.transient = true;
     o
 }
